@@ -80,7 +80,7 @@ def run_ident(case):
     if not all(math.isfinite(t) for t in (csca, cabs, cext, g)):
         return Outcome(failure("nonfinite", "cross sections not finite: %r" % v.tolist(), **facts), True, labels)
     met = {}
-    if abs(cext - (csca + cabs)) > 1e-12 * TOLX * abs(cext):
+    if not (abs(cext - (csca + cabs)) <= 1e-12 * TOLX * abs(cext)):
         return Outcome(failure("energy_conservation", "C_ext != C_sca + C_abs: %r" % v.tolist(), **facts), True, labels)
     if not csca > 0:
         return Outcome(failure("scattering_not_positive", "C_sca = %r" % csca, **facts), True, labels)
@@ -96,7 +96,7 @@ def run_ident(case):
         lim = 1e-9 if nl == 1 else (1e-9 + 1e7 * 2.0 ** -52 / max(pz, 1e-3))
         if nl > 1 and pz < 1e-3 and abs(cabs) > 1e8 * 2.0 ** -52 / pz * abs(cext):
             facts.pop("near_riccati_bessel_zero", None)      # beyond the law: not the known finding
-        if abs(cabs) > lim * TOLX * abs(cext):
+        if not (abs(cabs) <= lim * TOLX * abs(cext)):
             return Outcome(failure("absorption_nonzero_for_real_index",
                                    "C_abs/C_ext = %.3g (x=%.4g, layers=%d, distance of a layer argument from a zero of psi_n: %.2g)" % (cabs / cext, sd["x"], nl, pz), **facts), True, labels)
     # optical theorem across entry points: C_ext = 4 pi / k^2 Re S(0)
@@ -105,7 +105,7 @@ def run_ident(case):
     for idx in (0, 1):
         ot = 4 * math.pi / k ** 2 * S[idx, idx].real
         met["optical_theorem_rel"] = max(met.get("optical_theorem_rel", 0), abs(ot - cext) / abs(cext))
-        if abs(ot - cext) > 1e-6 * TOLX * abs(cext):
+        if not (abs(ot - cext) <= 1e-6 * TOLX * abs(cext)):
             return Outcome(failure("optical_theorem", "4pi/k^2 Re S(0) = %.10g vs C_ext = %.10g" % (ot, cext), **facts), True, labels)
     return Outcome(None, abs(ms[0] - 1) > 0.02, labels, metrics=met)
 
@@ -133,7 +133,7 @@ def run_text(case):
     # absorption: relative to extinction (it is a difference)
     ea = abs(v[1] / area - (qe - qs)) / qe
     met = {"qsca_rel": es, "qext_rel": ee, "g_abs": eg, "qabs_rel_to_ext": ea}
-    if max(es, ee, ea) > 1e-7 * TOLX or eg > 1e-7 * TOLX:
+    if not (max(es, ee, ea) <= 1e-7 * TOLX) or not (eg <= 1e-7 * TOLX) or not np.all(np.isfinite([es, ee, ea, eg])):
         return Outcome(failure("vs_textbook", "rel err sca %.3g ext %.3g abs %.3g, g abs err %.3g (x=%.4g m=%r)" % (es, ee, ea, eg, s["x"], m),
                                size=size_class(s["x"])), True, labels)
     # Rayleigh limit
@@ -193,9 +193,9 @@ def run_quad(case):
     e1 = abs(csca_q - csca) / csca
     e2 = abs(gq - g)
     met = {"csca_quadrature_rel": e1, "g_quadrature_abs": e2}
-    if e1 > 1e-5 * TOLX:
+    if not (e1 <= 1e-5 * TOLX):
         return Outcome(failure("solid_angle_scattering", "integral %.10g vs C_sca %.10g (rel %.3g)" % (csca_q, csca, e1), layered=nl > 1), True, labels)
-    if e2 > 1e-5 * TOLX:
+    if not (e2 <= 1e-5 * TOLX):
         return Outcome(failure("solid_angle_asymmetry", "integral %.10g vs g %.10g" % (gq, g), layered=nl > 1), True, labels)
     return Outcome(None, abs(ms[0] - 1) > 0.02, labels, metrics=met)
 
